@@ -6,6 +6,10 @@ P2  every (state, operation) pair of that graph is replayed on a real
     yash_env::job::JobList; the observed {pre, op, res, post} records are
 P3  validated by TLC against the abstract contract spec/JobListAbs.tla
     (Trace_JobList), as are long random histories beyond the bounds.
+P4  "%%, %+, %-, %n and $! designate the jobs the documentation says they do"
+    THROUGH the built-ins (jobs, fg, bg, wait, kill, `cmd &`): a reduced slice of
+    the job-control module G02 (spec/JobCtl.tla over JobListAbs, harness/g02,
+    Trace_JobCtl), see checks.g02.run_stage.
 """
 import json
 import os
@@ -78,6 +82,9 @@ def run(tier):
     vlib.log(f"[p3] random histories: {info['events']} steps validated in {info['wall']:.1f}s")
     random_steps = info["events"]
     os.remove(trace)
+    # P4: the built-ins over the job table (stage of G02)
+    from checks import g02
+    jobctl = g02.run_stage(tier, rep, budget="c12")
     rc = rep.finish()
     unexercised = [a for a, c in coverage_actions.items() if c == 0]
     vlib.write_evidence(PID, tier, {
@@ -94,8 +101,11 @@ def run(tier):
         "tlc_action_coverage": coverage_actions,
         "actions_not_exercised": unexercised,
         "random_history_steps": random_steps,
+        "jobctl_stage": jobctl,
     }, time.time() - t0, violations=len(rep.violations), assumptions=[
         "insert is called with a fresh pid or the pid of a finished job (the property's quantifier)",
+        "jobctl stage: the assumptions of G02 (simulated kernel: signals only to processes blocked in their body; "
+        "no terminal)",
         "TLC 1.8.0 and the JSON community module are trusted",
     ])
     return rc
@@ -105,6 +115,9 @@ def replay(path):
     with open(path) as f:
         obj = json.load(f)
     rec = obj["replay"]
+    if isinstance(rec, dict) and rec.get("stage") == "g02":
+        from checks import g02
+        return g02.replay(path)
     wd = vlib.workdir(PID + "-replay")
     t = os.path.join(wd, "one.ndjson")
     # re-execute the step on the current tree
